@@ -8,12 +8,14 @@ import importlib.util, sys
 sys.path.insert(0, os.path.join(V, "tools"))
 CHECKS = {}
 NA = {}
+# checks the maintainer has run green on the unchanged tree (one id per line)
+ENABLED = set(open(os.path.join(V, 'tools', 'enabled.txt')).read().split())
 for fn in sorted(os.listdir(os.path.join(V, "tools", "props"))):
     if fn.startswith("c") and fn.endswith(".py"):
         spec = importlib.util.spec_from_file_location("props." + fn[:-3], os.path.join(V, "tools", "props", fn))
         mod = importlib.util.module_from_spec(spec); spec.loader.exec_module(mod)
         e = getattr(mod, "MANIFEST", None)
-        if e:
+        if e and fn[:-3].upper() in ENABLED:
             CHECKS[fn[:-3].upper()] = e
         n = getattr(mod, "NOT_APPLICABLE", None)
         if n:
